@@ -63,12 +63,15 @@ fn worker(args: &[String]) -> i32 {
         "panic" => engines::worker_panic(&wa),
         "walks" => engines::worker_walks(&wa, Fate::Drop, 6, 3),
         "walks-forget" => engines::worker_walks(&wa, Fate::Forget, 6, 1),
+        "walks-pos" => engines::worker_walks(&wa, Fate::Drop, if wa.thorough { 6 } else { 5 }, usize::MAX),
+        "walks-pos-forget" => engines::worker_walks(&wa, Fate::Forget, 4, usize::MAX),
         "probes" => engines::worker_probes(&wa, &root()),
         "shared" => engines::worker_shared(&wa),
         "variants" => engines::worker_variants(&wa),
         "geometry" => engines::worker_geometry(&wa),
         "mem" => engines::worker_mem(&wa),
         "mem-big" => engines::worker_mem_big(&wa),
+        "huge" => engines::worker_huge(&wa),
         other => { eprintln!("worker: unknown engine {}", other); return 2; }
     };
     let text = serde_json::to_string(&acc.to_json()).unwrap();
@@ -116,6 +119,12 @@ fn exec_case(args: &[String]) -> i32 {
         return match lruverif::shared::SharedCase::from_text(&text) {
             Ok(c) => { let o = lruverif::shared::run_shared(&c); if o.failures.is_empty() { 0 } else { 3 } },
             Err(_) => 2,
+        };
+    }
+    if text.lines().any(|l| l.starts_with("huge ")) {
+        return match lruverif::huge::HugeCase::from_text(&text) {
+            Some(c) => { let _ = lruverif::huge::run_huge(&c); 0 },
+            None => 2,
         };
     }
     match Case::from_text(&text) {
@@ -179,6 +188,19 @@ fn replay(args: &[String]) -> i32 {
             },
         };
     }
+    if text.lines().any(|l| l.starts_with("huge ")) {
+        let case = match lruverif::huge::HugeCase::from_text(&text) { Some(c) => c, None => { eprintln!("replay: malformed huge case"); return 2; } };
+        let known = load_known(&root());
+        let out = lruverif::huge::run_huge(&case);
+        let mut code = 0;
+        for f in &out.fails {
+            println!("FAILURE tags={} sig={} : {}", f.tags.join("+"), f.sig, f.msg);
+            if f.tags.contains(&prop) && is_known(&known, prop, &f.sig).is_none() { code = 1; }
+        }
+        if code == 1 { println!("VIOLATION property={} replay={}", prop, path); }
+        else { println!("replay: property {} held on this case ({} state checks)", prop, out.checks); }
+        return code;
+    }
     if let Some(v) = text.lines().find_map(|l| l.strip_prefix("variant ")) {
         let body: String = text.lines().filter(|l| !l.starts_with("variant ")).collect::<Vec<_>>().join("\n");
         let case = match Case::from_text(&body) { Ok(c) => c, Err(e) => { eprintln!("replay: {}", e); return 2; } };
@@ -237,7 +259,7 @@ struct Job {
 fn jobs_for(prop: &str, thorough: bool) -> Vec<Job> {
     let mut jobs = jobs_for_inner(prop, thorough);
     let cache_family = !matches!(prop, "C08" | "C09" | "C18");
-    if matches!(prop, "C01" | "C02" | "C04" | "C05" | "C06" | "C07" | "C11" | "C12" | "C13" | "C14" | "C15" | "C17" | "C19") {
+    if matches!(prop, "C01" | "C02" | "C03" | "C04" | "C05" | "C06" | "C07" | "C10" | "C11" | "C12" | "C13" | "C14" | "C15" | "C17" | "C19") {
         jobs.push(Job { engine: "variants", build: "", asan: false, workers: 16, cases: if thorough { 6000 } else { 400 }, timeout_s: 3600 });
         if matches!(prop, "C06" | "C07" | "C12" | "C17") {
             jobs.push(Job { engine: "variants", build: "", asan: true, workers: 16, cases: if thorough { 1000 } else { 100 }, timeout_s: 3600 });
@@ -251,6 +273,10 @@ fn jobs_for(prop: &str, thorough: bool) -> Vec<Job> {
         if matches!(prop, "C06" | "C07") {
             jobs.push(Job { engine: "geometry", build: "", asan: true, workers: 16, cases: 0, timeout_s: 1800 });
         }
+    }
+    if matches!(prop, "C02" | "C04" | "C05" | "C06" | "C07" | "C12" | "C13" | "C14" | "C15") {
+        // more than 2^16 entries: one script per worker in the quick tier
+        jobs.push(Job { engine: "huge", build: "", asan: false, workers: 16, cases: if thorough { 12 } else { 1 }, timeout_s: 3600 });
     }
     if cache_family {
         jobs.insert(0, Job { engine: "corpus", build: "", asan: false, workers: 1, cases: 0, timeout_s: 600 });
@@ -280,6 +306,7 @@ fn jobs_for_inner(prop: &str, thorough: bool) -> Vec<Job> {
             vec![cache(false, 4000, 25000), cache(true, 600, 5000)],
         "C12" => vec![
             Job { engine: "walks", build: "", asan: false, workers: 16, cases: 0, timeout_s: 1800 },
+            Job { engine: "walks-pos", build: "", asan: false, workers: 16, cases: 0, timeout_s: 1800 },
             cache(false, 300, 3000),
             Job { engine: "walks", build: "", asan: true, workers: 16, cases: 0, timeout_s: 1800 },
             cache(true, 60, 800),
@@ -299,6 +326,7 @@ fn jobs_for_inner(prop: &str, thorough: bool) -> Vec<Job> {
         ],
         "C17" => vec![
             Job { engine: "walks-forget", build: "", asan: false, workers: 16, cases: 0, timeout_s: 1800 },
+            Job { engine: "walks-pos-forget", build: "", asan: false, workers: 16, cases: 0, timeout_s: 1800 },
             cache(false, 200, 3000),
             Job { engine: "walks-forget", build: "", asan: true, workers: 16, cases: 0, timeout_s: 1800 },
             cache(true, 50, 800),
@@ -664,7 +692,7 @@ fn orchestrate(args: &[String]) -> i32 {
         }));
         let ex = job_acc.exhaustive;
         total.merge(&job_acc);
-        if job.engine.starts_with("walks") && !job.asan {
+        if (job.engine == "walks" || job.engine == "walks-forget") && !job.asan {
             total.exhaustive = ex;
         }
     }
